@@ -9,7 +9,7 @@ from . import rule
 from .zmq import anchors, Z, ret_const, stmt_list_containing
 from .c01 import sync_region, pm_paths
 from .c04 import recv_loop_paths
-from ..model import Unresolved, walk_scope, parent, enclosing_function, qualname
+from ..model import Unresolved, walk_scope, parent, enclosing_function, qualname, ancestors
 from ..paths import U, Path, Evaluator
 from .. import q
 
@@ -51,17 +51,41 @@ def r2(rr, repo):
     unreg = q.attr_calls(za.R_cls, 'unregister')
     rr.floor('poller.unregister sites', len(unreg), 2, za.mod, za.R_cls)
     for c in unreg:
-        g = q.guards_of(c, stop=za.R_once)
+        g = []
+        for t, pol in q.guards_of(c, stop=za.R_once):   # flatten positive conjunctions: `if a and b:` guards like `if a: if b:`
+            if pol and isinstance(t, ast.BoolOp) and isinstance(t.op, ast.And):
+                g.extend((v, True) for v in t.values)
+            else:
+                g.append((t, pol))
         txt = ' && '.join(('' if pol else 'not ') + U(t) for t, pol in g)
         tgt = U(c.args[0]) if c.args else ''
         if any(pol and U(t).endswith('.got_all') and U(t)[:-8] == tgt[:-4] for t, pol in g):
             rr.holds('a source is dropped from polling when its set is complete', za.mod, c, key='unreg-complete')
-        elif any(pol and 'balance' in U(t) for t, pol in g) and any(pol and ' is not ' in U(t) and ' in poller' in U(t) for t, pol in g):
+        elif any(pol and 'balance' in U(t) for t, pol in g) and any(pol and ' is not ' in U(t) for t, pol in g) and any(pol and ' in poller' in U(t) for t, pol in g):
             rr.holds('balanced: the other sources are dropped from polling once one source delivered a data message', za.mod, c, key='unreg-balanced')
         else:
             rr.violated('a source is unregistered from the poller outside the two sanctioned situations (it would never be polled again)', za.mod, c, witness=txt, key=f'unreg-other|{tgt}')
-    # reset loop re-registers completed sources
+    # must-unregister: after a message was accepted, a source whose set is (or may be) complete leaves the poller on every path
     call, lst, _, _ = sync_region(za)
+    outer = [a for a in ancestors(call) if isinstance(a, ast.If)]
+    if not outer:
+        raise Unresolved(f'{za.mod.rel}: the synchronized call of process_msg is not inside the ephemeral/synchronized dispatch')
+    _, body, idx = stmt_list_containing(outer[-1])
+    recv_src = U(unreg[0].args[0])[:-4] if unreg and unreg[0].args and U(unreg[0].args[0]).endswith('.sub') else 'sender'
+    ps = za.ev().run(body[idx:], za.start(za.R_once))
+    rr.paths += len(ps)
+    k = 0
+    for p in ps:
+        if p.outcome is not None:
+            continue
+        ga = p.facts.get(f'truthy({recv_src}.got_all)')
+        un = [e for e in p.events if e.kind == 'call' and e.term.endswith('.unregister') and e.args and e.args[0] == f'{recv_src}.sub']
+        if ga is not False:
+            k += 1
+            rr.ob('once a message was accepted, a source whose set for the current id is complete leaves the poller (nothing newer is read from it before its siblings caught up) - on every path, '
+                  'empty sets and topics-only messages included', bool(un), za.mod, outer[-1], witness=p.pc_text(), key='complete-leaves-poller')
+    rr.floor('paths on which the receiving source may be complete', k, 2, za.mod, outer[-1])
+    # reset loop re-registers completed sources
     ev = za.ev()
     ps = ev.run(lst, za.start(za.R_once))
     rr.paths += len(ps)
@@ -141,3 +165,9 @@ def r4(rr, repo):
 def r5(rr, repo):
     from .c03 import r5 as c03r5
     c03r5(rr, repo)
+
+
+@rule('C06.R6', 'a restarted consumer behind a balancing publisher is re-admitted: under balance the scheduled HELLO goes to every output whatever else is sent (shares C07.R5)')
+def r6(rr, repo):
+    from .c07 import r5 as c07r5
+    c07r5(rr, repo)
